@@ -20,6 +20,9 @@ profile. They exist because seeded changes of round 2 needed them to manifest (D
  p_empty_blockallow   an app (or the app defaults) with an explicitly empty allowlist / blocklist
  p_rule_export_escape a rule exporting a value with an escaped reference to a defined variable
  p_optsrc_same_guard  a module naming the same optional-source guard twice (own list, or defaults + own)
+ p_shadowed_provider  >= 3 providers of one feature spread over a context chain of depth >= 3, and a nearer context re-defining one of
+                      them WITHOUT the feature (the shadowed provider drops out; the others keep nearest-first order); plain / unique
+ p_two_patched_downloads  two (or three) different downloaded modules with patches in one build: every one of them renders the GIT_PATCH rule
  p_subdirs_later_doc  a multi-document file listing a sub-directory from a document that is not the first, with different defaults
 """
 import copy, random
@@ -331,6 +334,61 @@ def optsrc_same_guard(p, rng):
         a[key] = ["?" + nm, "?" + guard] + list(a.get(key) or [])
 
 
+def shadowed_provider(p, rng):
+    root = _root(p)
+    if "contexts" not in root or "builders" not in root:
+        return
+    depth = rng.randint(3, 5)
+    chain = ["default"] + [f"sp{k}" for k in range(1, depth)]
+    for k in range(1, depth):
+        root["contexts"].append({"name": chain[k], "parent": chain[k - 1]})
+    root["builders"].append({"name": "spb", "parent": chain[-1]})
+    if rng.random() < 0.5:
+        root["builders"].append({"name": "spb_mid", "parent": chain[rng.randint(1, depth - 1)]})
+    key = rng.choice(["provides", "provides", "provides_unique"])
+    mods = root.setdefault("modules", [])
+    provs = []
+    # one or two providers per context of the chain (root first), so that the inherited list is long enough for a removal in the
+    # middle to disturb the order of what follows
+    for k in range(depth - 1):
+        for j in range(rng.randint(1, 2)):
+            name = f"spp{k}_{j}"
+            m = {"name": name, "context": chain[k], key: ["spfeat"], "sources": [name + ".c"]}
+            mods.append(m)
+            provs.append((k, name))
+    # shadow one provider that is not the last of the inherited list: same name, nearer context, no feature
+    cands = [pn for pn in provs[:-2]] or provs[:1]
+    k0, victim = rng.choice(cands)
+    shadow_ctx = chain[rng.randint(max(k0 + 1, depth - 2), depth - 1)]
+    mods.append({"name": victim, "context": shadow_ctx, "sources": [victim + "_shadow.c"]})
+    for kind, a, pa, dd in _modules(p, ("apps",)):
+        kk = "selects" if "selects" in a or "depends" not in a else "depends"
+        a[kk] = [rng.choice(["spfeat", "?spfeat"])] + list(a.get(kk) or [])
+    args = p.setdefault("args", {})
+    if args.get("builders") is not None:
+        args["builders"] = list(args["builders"]) + ["spb"]
+
+
+def two_patched_downloads(p, rng):
+    root = _root(p)
+    dflt = next((c for c in root.get("contexts") or [] if c.get("name") == "default"), None)
+    if dflt is None or not any(r.get("name") == "GIT_PATCH" for r in dflt.get("rules") or []):
+        return
+    mods = root.setdefault("modules", [])
+    n = rng.randint(2, 3)
+    names = [f"pd{k}" for k in range(n)]
+    for k, nm in enumerate(names):
+        m = {"name": nm, "download": {"git": {"url": f"https://example.invalid/{nm}.git", "commit": "0123abcd"},
+                                      "patches": [f"{nm}-fix.patch"] + (["second.patch"] if rng.random() < 0.3 else [])},
+             "sources": [nm + ".c"]}
+        if k and rng.random() < 0.4:
+            m["depends"] = [names[k - 1]]
+        mods.append(m)
+    for kind, a, pa, dd in _modules(p, ("apps",)):
+        kk = "selects" if "selects" in a or "depends" not in a else "depends"
+        a[kk] = [names[0]] + [rng.choice(["", "?"]) + x for x in names[1:]] + list(a.get(kk) or [])
+
+
 def subdirs_later_doc(p, rng):
     docs = p["files"]["laze-project.yml"]
     root = docs[0]
@@ -348,7 +406,7 @@ def subdirs_later_doc(p, rng):
 
 
 SHAPES = [("p_rule_rename_chain", rule_rename_chain), ("p_ifthen_feature_cond", ifthen_feature_cond), ("p_empty_blockallow", empty_blockallow),
-          ("p_rule_export_escape", rule_export_escape), ("p_optsrc_same_guard", optsrc_same_guard), ("p_subdirs_later_doc", subdirs_later_doc),
+          ("p_rule_export_escape", rule_export_escape), ("p_optsrc_same_guard", optsrc_same_guard), ("p_subdirs_later_doc", subdirs_later_doc), ("p_two_patched_downloads", two_patched_downloads), ("p_shadowed_provider", shadowed_provider),
           ("p_dup_listing", dup_listing), ("p_ctx_shuffle", ctx_shuffle), ("p_app_dup", app_dup), ("p_rule_field_variant", rule_field_variant),
           ("p_defaults_lists", defaults_lists), ("p_global_dep_order", global_dep_order), ("p_late_ifthen_leaf", late_ifthen_leaf)]
 
